@@ -19,6 +19,15 @@ for d in sorted(glob.glob(os.path.join(ROOT, "seeded", "*"))):
         earlier.setdefault(m.get("property", os.path.basename(d).split("-")[0]), []).append(f"- {nm}: {what}")
 
 NATURES = {
+    "6": "use what is particular to Rust and to floating point: `as` casts that truncate, saturate or wrap (usize <-> f64 <-> u32/i32), `min` / `max` / "
+         "`clamp` in the presence of NaN or signed zeros, `f32::EPSILON` vs `f64::EPSILON` or a constant of the wrong float type inside generic code, "
+         "`T::from(x).unwrap()` vs lossy conversion, `powi` / `sqrt` / `ln_1p` / `mul_add` substitutions that are not bit-identical, integer division "
+         "or remainder where a float one was meant, `checked_` / `saturating_` / `wrapping_` arithmetic on counts, `sort_unstable` / `select_nth` / "
+         "`dedup` / `binary_search` replacing a plain sort or scan, lazy iterator adaptors evaluated twice or not at all, `zip` that silently "
+         "truncates, `Default` / `Clone` / `PartialEq` / `PartialOrd` / `Hash` written by hand instead of derived (or the reverse) for one type only, an "
+         "inherent method shadowing a trait method for one of several sibling types (Arithmetic / Geometric / Harmonic, Paired / Unpaired, the two "
+         "Stats types), a macro-generated impl that treats one listed type differently, `#[inline]`-style refactorings that reorder floating-point "
+         "operations, early `return` / `?` placed before a state update, and match arms whose order matters.  The trigger should still be narrow.",
     "5": "aim for a defect that a checker probing a dense but PLAUSIBLE grid of inputs would still miss: a trigger that is a conjunction of two or three "
          "ordinary-looking conditions (e.g. one-sided AND level below 1/2 AND an odd sample size; f32 AND more than 2^24 observations; a merge whose "
          "LEFT operand is empty AND whose right operand was itself produced by a merge); a value that is special only to the implementation (an "
